@@ -213,6 +213,32 @@ fn nested_match_shape(x: usize, y: usize, body: &C) -> bool {
     })
 }
 
+/// `let (x0, r0) = v in let (x1, r1) = r0 in ... body` where no `r` is used anywhere else: the
+/// variables of the n-ary tuple pattern, the scrutinee and the body
+fn tuple_chain(c: &C) -> (Vec<usize>, &V, &C) {
+    let C::LetPair(x, y, v, m) = c else { unreachable!() };
+    let mut vars = vec![*x];
+    let mut last = *y;
+    let mut body: &C = m;
+    loop {
+        match body {
+            | C::LetPair(x2, y2, V::Var(r), m2) if *r == last => {
+                let mut fv = std::collections::HashSet::new();
+                crate::c07::fv_c(m2, &mut fv);
+                if fv.contains(&last) {
+                    break;
+                }
+                vars.push(*x2);
+                last = *y2;
+                body = m2;
+            }
+            | _ => break,
+        }
+    }
+    vars.push(last);
+    (vars, v, body)
+}
+
 /// the leading `fn` chain of a computation: parameters and the body below them
 fn fn_chain(mut m: &C) -> (Vec<(usize, &VTy)>, &C) {
     let mut params = Vec::new();
@@ -237,6 +263,11 @@ impl C {
                     }
                 }
                 format!("(match {}{arms} end : {})", v.src(), b.src())
+            }
+            | C::LetPair(..) if sugar && tuple_chain(self).0.len() >= 3 => {
+                let (vars, scrut, body) = tuple_chain(self);
+                let names: Vec<String> = vars.iter().map(|x| format!("x{x}")).collect();
+                format!("let ({}) = {} in\n{}", names.join(", "), scrut.src(), body.src())
             }
             | C::Fn(..) if sugar => {
                 let (params, body) = fn_chain(self);
@@ -620,7 +651,7 @@ impl<'r> Gen<'r> {
     pub fn gen_c(&mut self, ty: &CTy, ctx: &Ctx, size: usize) -> C {
         if size > 2 && self.rng.chance(2, 3) {
             // elimination / sequencing forms, available at every type
-            match self.rng.below(10) {
+            match self.rng.below(11) {
                 | 0 | 1 => {
                     let a = self.small_vty(1, self.sig.datas.len(), None);
                     let x = self.fresh();
@@ -693,6 +724,33 @@ impl<'r> Gen<'r> {
                     let n = self.gen_c(ty, ctx, size / 2);
                     self.feat("cmp");
                     return C::Cmp(t, op, a, b, ty.clone(), Box::new(y), Box::new(n));
+                }
+                | 10 => {
+                    // a right-nested product of three or four components taken apart by nested pair
+                    // patterns: with sugared printing this is one n-ary tuple pattern
+                    let n = 3 + self.rng.below(2) as usize;
+                    let tys: Vec<VTy> = (0..n).map(|_| self.small_vty(1, self.sig.datas.len(), None)).collect();
+                    let mut prod = tys[n - 1].clone();
+                    for t in tys[..n - 1].iter().rev() {
+                        prod = VTy::Prod(Box::new(t.clone()), Box::new(prod));
+                    }
+                    let v = self.gen_v(&prod, ctx, size / 2);
+                    let vars: Vec<usize> = (0..n).map(|_| self.fresh()).collect();
+                    let mut ctx2 = ctx.clone();
+                    for (x, t) in vars.iter().zip(tys.iter()) {
+                        ctx2.push((*x, t.clone()));
+                    }
+                    let body = self.gen_c(ty, &ctx2, size / 2);
+                    // let (x0, r0) = v in let (x1, r1) = r0 in ... let (x_{n-2}, x_{n-1}) = r_{n-3} in body
+                    let rests: Vec<usize> = (0..n - 2).map(|_| self.fresh()).collect();
+                    let mut m = body;
+                    for k in (0..n - 1).rev() {
+                        let scrut = if k == 0 { v.clone() } else { V::Var(rests[k - 1]) };
+                        let second = if k == n - 2 { vars[n - 1] } else { rests[k] };
+                        m = C::LetPair(vars[k], second, scrut, Box::new(m));
+                    }
+                    self.feat("tuple_pattern");
+                    return m;
                 }
                 | 9 => {
                     // a pair of data values taken apart by two nested matches: with sugared printing
